@@ -270,7 +270,7 @@ func (d *Decoder) unmarshal(val reflect.Value, tagType byte) error {
 			return errors.New("cannot parse TagIntArray to " + vt.String() + ", length not match")
 		} else if k := vt.Kind(); k != reflect.Slice && k != reflect.Array {
 			return errors.New("cannot parse TagIntArray to " + vt.String() + ", it must be a slice")
-		} else if tk := val.Type().Elem().Kind(); tk != reflect.Int && tk != reflect.Int32 {
+		} else if tk := val.Type().Elem().Kind(); tk != reflect.Int && tk != reflect.Int32 && tk != reflect.Uint32 {
 			return errors.New("cannot parse TagIntArray to " + vt.String())
 		}
 
@@ -283,7 +283,11 @@ func (d *Decoder) unmarshal(val reflect.Value, tagType byte) error {
 			if err != nil {
 				return err
 			}
-			buf.Index(i).SetInt(int64(value))
+			if e := buf.Index(i); e.CanUint() {
+				e.SetUint(uint64(uint32(value)))
+			} else {
+				e.SetInt(int64(value))
+			}
 		}
 		if vt.Kind() == reflect.Slice {
 			val.Set(buf)
@@ -300,12 +304,17 @@ func (d *Decoder) unmarshal(val reflect.Value, tagType byte) error {
 		vt := val.Type() // receiver must be []int or []int64
 		if vt.Kind() == reflect.Interface {
 			vt = reflect.TypeOf([]int64{}) // pass
-		} else if vt.Kind() != reflect.Slice {
+		} else if vt.Kind() == reflect.Array && vt.Len() != int(aryLen) {
+			return errors.New("cannot parse TagLongArray to " + vt.String() + ", length not match")
+		} else if k := vt.Kind(); k != reflect.Slice && k != reflect.Array {
 			return errors.New("cannot parse TagLongArray to " + vt.String() + ", it must be a slice")
 		}
+		buf := val // an array is filled in place
 		switch vt.Elem().Kind() {
 		case reflect.Int64:
-			buf := reflect.MakeSlice(vt, int(aryLen), int(aryLen))
+			if vt.Kind() == reflect.Slice {
+				buf = reflect.MakeSlice(vt, int(aryLen), int(aryLen))
+			}
 			for i := 0; i < int(aryLen); i++ {
 				value, err := d.readInt64()
 				if err != nil {
@@ -313,9 +322,13 @@ func (d *Decoder) unmarshal(val reflect.Value, tagType byte) error {
 				}
 				buf.Index(i).SetInt(value)
 			}
-			val.Set(buf)
+			if vt.Kind() == reflect.Slice {
+				val.Set(buf)
+			}
 		case reflect.Uint64:
-			buf := reflect.MakeSlice(vt, int(aryLen), int(aryLen))
+			if vt.Kind() == reflect.Slice {
+				buf = reflect.MakeSlice(vt, int(aryLen), int(aryLen))
+			}
 			for i := 0; i < int(aryLen); i++ {
 				value, err := d.readInt64()
 				if err != nil {
@@ -323,7 +336,9 @@ func (d *Decoder) unmarshal(val reflect.Value, tagType byte) error {
 				}
 				buf.Index(i).SetUint(uint64(value))
 			}
-			val.Set(buf)
+			if vt.Kind() == reflect.Slice {
+				val.Set(buf)
+			}
 		default:
 			return errors.New("cannot parse TagLongArray to " + vt.String())
 		}
